@@ -54,8 +54,20 @@ TConn == /\ T.ev = "conn"          \* a new camera connection: new processor, se
 TFrame == T.ev = "frame" /\ Frame(AllOk(T.motion)) /\ fid' = T.id /\ Upd
 TClear == T.ev = "clear" /\ Reset(TRUE) /\ Upd
 TBad   == T.ev = "bad" /\ BadFrame(TRUE, TRUE) /\ Upd
+(* The output directory holds the motion recordings and, when test recordings were requested (ntest), one file   *)
+(* of SnapLen+1 consecutive frames per request; the test files are what is left after removing the predicted     *)
+(* motion files.                                                                                                *)
+Consec(f) == \A i \in 1..(Len(f) - 1) : f[i + 1] = f[i] + 1
 TFiles == /\ T.ev = "files" /\ UNCHANGED <<pvars, mfiles, mcur, cfiles, ccur>>
-          /\ LET v == (IF T.motion # mfiles THEN {"SYS:motion-files-differ"} ELSE {})
+          /\ LET ntest == IF "ntest" \in DOMAIN T THEN T.ntest ELSE 0
+                 inPred(f) == \E i \in DOMAIN mfiles : mfiles[i] = f
+                 inObs(f) == \E i \in DOMAIN T.motion : T.motion[i] = f
+                 extra == SelectSeq(T.motion, LAMBDA f : ~inPred(f))
+                 missing == SelectSeq(mfiles, LAMBDA f : ~inObs(f))
+                 v == (IF ntest = 0 /\ T.motion # mfiles THEN {"SYS:motion-files-differ"} ELSE {})
+                      \cup (IF ntest > 0 /\ missing # <<>> THEN {"SYS:motion-files-differ"} ELSE {})
+                      \cup (IF ntest > 0 /\ (Len(extra) # ntest \/ \E i \in DOMAIN extra : Len(extra[i]) # SnapLen + 1 \/ ~Consec(extra[i]))
+                            THEN {"SYS:test-recording-files-wrong"} ELSE {})
                       \cup (IF T.constant # cfiles THEN {"SYS:continuous-files-differ"} ELSE {})
              IN IF v = {} THEN TRUE ELSE PrintT(<<"VIOL", l, v, mfiles, cfiles>>)
 TNext == l <= Len(Trace) /\ l' = l + 1 /\ (TConn \/ TFrame \/ TClear \/ TBad \/ TFiles)
